@@ -98,6 +98,8 @@ def run_python(d):
     exc = {n: complex(*v) for n, v in d["exc"].items()}
     if len(d["comps"]) % 2 == 0:
         # the same result has been asked before about the same pins with OTHER amplitudes (and in the other mode)
+        # ... once exciting EVERY exposed pin (also those the final read-out leaves out: they must count as zero then)
+        mod.get_monitor({n: 0.375 - 0.5j for n in names}, power=d["power"])
         mod.get_monitor({n: (0.5 + 0.25j) * v + 0.125 for n, v in exc.items()}, power=not d["power"])
         mod.get_monitor({n: (0.5 + 0.25j) * v + 0.125 for n, v in exc.items()}, power=d["power"])
     tab = mod.get_monitor(dict(exc), power=d["power"])
